@@ -125,7 +125,10 @@ def r3_reads(ctx):
         for r in rets:
             if isinstance(r, tuple) and r[0] == "agg" and len(r[3]) == 2:
                 cmd = r[3][1]
-                ok = "header" in fmt(cmd)
+                # an element of the 4-byte request header, i.e. of the buffer filled by the first read_exact
+                rds = sorted(calls_norm(rq, "AsyncReadExt::read_exact"), key=lambda c: c.bb)
+                hb = o.of_operand(rds[0].args[1]) if rds else None
+                ok = isinstance(cmd, tuple) and cmd[0] == "var" and len(cmd) > 2 and isinstance(hb, tuple) and len(hb) > 2 and cmd[2] == hb[2] and rq.lty(hb[2]).get("s") == "[u8; 4]"
         ctx.ob("R16.3", "read_connection_request:returns-command-byte", ok, "", "the command byte of the header is returned to the caller" if ok else "read_connection_request does not return the header's command byte")
 
 
